@@ -662,6 +662,11 @@ class Canon:
                     r = self._inline_property(base, qual)
                     if r is not None:
                         return r
+        # inside its class a field that a property simply hands out is read through that property (self._die == self.bounding_box)
+        if base == ("self",) and name.startswith("_") and getattr(self.fi, "cls", None) is not None:
+            getter = _trivial_getters(self.fi.cls).get(name)
+            if getter is not None and getter != self.fi.name:
+                return ("a", base, getter)
         # a property defined as the negation of another one (is_soft == not is_hard) is written with that other one
         if self.model is not None and base != ("self",):
             twin = self.model.negated_twin(name)
@@ -716,7 +721,7 @@ class Canon:
     def _e_UnaryOp(self, e: ast.UnaryOp) -> S:
         v = self.expr(e.operand)
         if isinstance(e.op, ast.Not):
-            return mk_not(v)
+            return mk_not(_truth(v))
         if isinstance(e.op, ast.USub):
             return (-to_poly(v)).to_s()
         if isinstance(e.op, ast.UAdd):
@@ -724,7 +729,7 @@ class Canon:
         return ("un", type(e.op).__name__, v)
 
     def _e_BoolOp(self, e: ast.BoolOp) -> S:
-        vs = [self.expr(v) for v in e.values]
+        vs = [_truth(self.expr(v)) for v in e.values]
         return mk_and(vs) if isinstance(e.op, ast.And) else mk_or(vs)
 
     def _e_Compare(self, e: ast.Compare) -> S:
@@ -864,7 +869,7 @@ class Canon:
         return out, []
 
     def _e_IfExp(self, e: ast.IfExp) -> S:
-        return mk_ite(self.expr(e.test), self.expr(e.body), self.expr(e.orelse))
+        return mk_ite(_truth(self.expr(e.test)), self.expr(e.body), self.expr(e.orelse))
 
     def _e_Subscript(self, e: ast.Subscript) -> S:
         base = self.expr(e.value)
@@ -933,7 +938,7 @@ class Canon:
                 tgt = self._bind_target(g.target, d, counter)
                 self.scope.bound.append(d)
                 pushed += 1
-                conds = mk_and([self.expr(c) for c in g.ifs]) if g.ifs else K_TRUE
+                conds = mk_and([_truth(self.expr(c)) for c in g.ifs]) if g.ifs else K_TRUE
                 gs.append((tgt, it, conds))
             body = tuple(self.expr(x) for x in elts)
         finally:
@@ -1015,7 +1020,7 @@ class Canon:
         if isinstance(st, ast.While):
             return [("while", _truth(self.expr(st.test)), _continue_to_else(self.block(st.body)), self.block(st.orelse))]
         if isinstance(st, ast.Assert):
-            return [("assert", self.expr(st.test))]
+            return [("assert", _truth(self.expr(st.test)))]
         if isinstance(st, ast.Raise):
             return [("raise", self.expr(st.exc) if st.exc is not None else K_NONE)]
         if isinstance(st, ast.Break):
@@ -1119,6 +1124,32 @@ def _strip_tail_returns(block: tuple) -> tuple:
             return block[:-1] + (("if", mk_not(c), b2, ()),)
         return block[:-1] + (mk_if(c, a2, b2),)
     return block
+
+
+def _trivial_getters(cls) -> dict:
+    """{field: property} for the properties of a class whose whole body is ``return self.field`` (one property per field)"""
+    cache = getattr(cls, "_trivial_getters", None)
+    if cache is not None:
+        return cache
+    out: dict = {}
+    dup = set()
+    for name, m in cls.methods.items():
+        if m.kind != "property":
+            continue
+        body = body_without_docstring(m.node)
+        if len(body) == 1 and isinstance(body[0], ast.Return) and isinstance(body[0].value, ast.Attribute) \
+                and isinstance(body[0].value.value, ast.Name) and body[0].value.value.id == "self":
+            f = body[0].value.attr
+            if f in out:
+                dup.add(f)
+            out[f] = name
+    for f in dup:
+        out.pop(f, None)
+    try:
+        cls._trivial_getters = out
+    except Exception:
+        pass
+    return out
 
 
 def _truth(c: S) -> S:
